@@ -207,3 +207,19 @@ Theorem C13_imports_exact_raw :
   (forall d, In d out <-> RawClosure ds root_path root_items d) /\ NoDup out.
 Proof. exact imports_exact_raw. Qed.
 Print Assumptions C13_imports_exact_raw.
+
+Theorem C13_imports_sound :
+  forall st root_path root ds,
+  resolve_imports st root_path root = inr ds ->
+  forall d, In d ds ->
+    Closure st root_path root d /\ (In d (fdefs root) \/ def_is_frag d = true).
+Proof. exact imports_sound. Qed.
+Print Assumptions C13_imports_sound.
+
+Theorem C13_linear_work :
+  forall st root_path root ds,
+  resolve_imports st root_path root = inr ds ->
+  exists tr : list entry,
+    ds = fdefs root ++ tr_defs tr /\ NoDup (map ekey tr) /\ length tr <= length st.
+Proof. exact imports_linear_work. Qed.
+Print Assumptions C13_linear_work.
